@@ -152,6 +152,18 @@ func evalJob(j job) (r result) {
 	case "stream-push":
 		ch := make(chan slip.Object, 4096)
 		slip.ReadStreamPush(&chunkReader{chunks: cutBlocks([]byte(j.Src), j.Cuts), eofWithLast: j.EOFWithLast}, s, ch)
+	case "eval-value": // the value of the last form comes back in Msg (a string as it is, anything else printed)
+		var v slip.Object
+		for _, o := range slip.ReadString(j.Src, s) {
+			if o != nil {
+				v = s.Eval(o, 0)
+			}
+		}
+		if str, ok := v.(slip.String); ok {
+			r.Msg = string(str)
+		} else {
+			r.Msg = slip.ObjectString(v)
+		}
 	default:
 		code := slip.ReadString(j.Src, s)
 		for _, o := range code {
@@ -179,7 +191,7 @@ func readSweep(j job) (r result) {
 				// malformed contents of #nA(...) are reported by the array code as error / type-error
 				// conditions (Lisp conditions of a documented class, not parse errors); only the templates
 				// reach them, the byte sweeps keep the strict list
-				if j.Src != "templates" && res.Fault == "" {
+				if j.Src != "templates" && j.Src != "sharp-digits" && res.Fault == "" {
 					res.Fault = "condition of class " + res.Class + " from the reader"
 				}
 			default:
@@ -287,6 +299,46 @@ func readSweep(j job) (r result) {
 				for _, c := range core {
 					for _, d := range core {
 						try([]byte{a, b, c, d})
+					}
+				}
+			}
+		}
+	case "sharp-digits":
+		// # + a run of 1..25 digits + every dispatch character that takes a count (round 5): no fault, and where
+		// the digits alone decide that the count is no rank / no radix the reader must say so whatever the run's
+		// length (a count that wrapped around to a small number would be accepted silently)
+		for _, run := range sharpDigitRuns() {
+			for _, mc := range [][2]string{{"A", "(1)"}, {"a", "()"}, {"R", "1"}, {"r", "0"}} {
+				want := sharpExpected(run, mc[0])
+				if want == "" {
+					continue
+				}
+				in := "#" + run + mc[0] + mc[1]
+				r.N++
+				for _, k := range []string{"read", "read-one"} {
+					if res := evalJob(job{Kind: k, Src: in}); res.Class != want && len(r.Bad) < 20 {
+						r.Bad = append(r.Bad, fmt.Sprintf("%q => the count is beyond every rank and radix, expected %s: got [%s] %s", in, want, res.Class, res.Msg))
+					}
+				}
+			}
+		}
+		n := 0
+		for _, in := range sharpDigitTexts() {
+			try([]byte(in))
+			// the same text in two blocks: cut inside the run, before and after the dispatch character
+			if h := strings.IndexAny(in, "#"); h >= 0 && len(in) <= 40 {
+				e := h + 1
+				for e < len(in) && in[e] >= '0' && in[e] <= '9' {
+					e++
+				}
+				for _, cut := range []int{h + 1, (h + 1 + e) / 2, e, e + 1} {
+					if cut <= len(in) {
+						n++
+						kinds := []string{"stream"}
+						if n%4 == 0 {
+							kinds = []string{"stream", "stream-one", "stream-each"}
+						}
+						tryStream([]byte(in), []int{cut}, kinds, n%2 == 0)
 					}
 				}
 			}
